@@ -1195,3 +1195,86 @@ class C15(PropOracle):
 
 
 ORACLES["C15"] = C15
+
+
+class C12(PropOracle):
+    """Every job accounted for when batches fail to submit / nodes are lost / dependency cycles."""
+
+    prop = "C12"
+
+    def on_launch(self, w, vp, d):
+        # a job that waits for a job without an outcome is never started
+        rec = w.obs.launch_log[-1]
+        by = {j["name"]: j for j in w.scen["jobs"]}
+        j = by.get(d["job"])
+        if j is None:
+            return
+        miss = sorted(b for b in j["blocked_by"] if b not in rec["rows"])
+        if miss:
+            self.v(w, f"job {d['job']} started although its blockers {miss} have no outcome", "started-despite-missing-blocker")
+        if w.obs.launch.get(d["job"], 0) > 1:
+            self.v(w, f"job {d['job']} started {w.obs.launch[d['job']]} times", "double-launch")
+
+    def on_end(self, w, vp, d):
+        o = w.obs
+        c = o.cluster or {}
+        if not c:
+            return
+        if not c.get("is_complete"):
+            rec = [v for v in w.vprocs if v.name.startswith("rec")]
+            if rec and not any((w.rootp + "cluster_config.json.lock") == h for v in w.vprocs for h in v.holding) \
+                    and not os.path.exists(w.rootp + "cluster_config.json.lock") and not o.lock_timeouts:
+                self.v(w, f"submission did not reach completion after the recovery rounds (faults: {w.data.get('faults')})", "no-completion")
+            return
+        res = read_json(w.rootp + "results.json")
+        if res is None:
+            self.v(w, "complete without results.json", "no-results")
+            return
+        rows = disk_rows(w)
+        got = {}
+        for r in res.get("results", []):
+            if r["name"] in got:
+                self.v(w, f"job {r['name']} listed twice in the final results", "duplicate-entry")
+            got[r["name"]] = (str(r["return_code"]), r["status"])
+        missing = list(res.get("missing_jobs", []))
+        by = {j["name"]: j for j in w.scen["jobs"]}
+        for n, j in by.items():
+            rr = rows.get(n, [])
+            if rr:
+                if n not in got:
+                    self.v(w, f"job {n} has a recorded result {rr} but is not in the final results (missing_jobs={missing})", "result-dropped")
+                    continue
+                if (rr[0][0], rr[0][1]) != got[n]:
+                    self.v(w, f"final result of {n} {got[n]} differs from the recorded row {rr[0][:2]}", "result-altered")
+                if n in missing:
+                    self.v(w, f"job {n} is reported missing although it has a result", "missing-with-result")
+                # no fabricated row
+                rc, st = rr[0][0], rr[0][1]
+                if st == "finished":
+                    if int(rc) not in o.exits.get(n, []):
+                        self.v(w, f"job {n} has a 'finished' row with return code {rc} but its process delivered {o.exits.get(n)} "
+                                  f"(launches: {o.launch.get(n, 0)})", "fabricated-result")
+                elif st == "canceled":
+                    if o.launch.get(n, 0):
+                        self.v(w, f"job {n} has a canceled row but was started", "canceled-but-ran")
+                    bad = [b for b in j["blocked_by"] if any(int(x[0]) != 0 for x in rows.get(b, []))]
+                    if not j["cancel"] or not bad:
+                        self.v(w, f"job {n} was given a canceled result without a failed blocker (flag={j['cancel']}, blockers={j['blocked_by']})", "fabricated-cancel")
+                else:
+                    self.v(w, f"job {n} has a row with status {st}", "bad-status")
+            else:
+                if n in got:
+                    self.v(w, f"final results contain {n}: {got[n]} but no row was ever recorded for it", "fabricated-result")
+                if n not in missing:
+                    self.v(w, f"job {n} has no result and is not reported missing (missing_jobs={missing})", "silently-dropped")
+        extra = [m for m in missing if m not in by]
+        if extra:
+            self.v(w, f"missing_jobs lists unknown jobs {extra}", "unknown-missing")
+        if len(missing) != len(set(missing)):
+            self.v(w, f"missing_jobs lists a job twice: {missing}", "duplicate-missing")
+        s = res.get("results_summary", {})
+        if s.get("num_missing") != len(missing):
+            self.v(w, f"summary num_missing={s.get('num_missing')} but {len(missing)} jobs are missing", "missing-count")
+
+
+ORACLES["C12"] = C12
